@@ -267,6 +267,14 @@ retry:
         if (check_status == status::OK_RETRY_AFTER_FB) {
             goto retry; // NOLINT
         }
+        if constexpr (!is_inlinable<ValueType>()) {
+            // a concurrent remove clears the slot before it shrinks the
+            // permutation, and removes are not tracked by the version.
+            if (kl <= sizeof(key_slice_type) && vp == nullptr) {
+                clean_up_tuple_list_nvc();
+                goto retry; // NOLINT
+            }
+        }
         if (kl > sizeof(key_slice_type)) {
             std::string_view arg_l_key;
             scan_endpoint arg_l_end{};
